@@ -770,8 +770,12 @@ def case_splinecv(run, rng, vd, client=None, index=None):
     engine = "numpy" if rng.random() < 0.25 or forced == 3 else "auto"
     run.count("class:splinecv:engine:" + engine)
     scoring = pick_scoring(rng, run)
-    while forced == 0 and scoring is None:
-        scoring = pick_scoring(rng, run)
+    if forced == 0:
+        # a scorer OBJECT / hand-written callable of an error metric (the sign convention matters for the argmax), together with weights
+        metric = ["neg_mean_squared_error", "neg_root_mean_squared_error", "neg_mean_absolute_error", "r2"][(index // 4) % 4]
+        spelling = ["make_scorer", "get_scorer", "plain_callable"][(index // 4) % 3]
+        scoring = R.spell_scoring(metric, spelling)
+        run.count("class:splinecv:scorer_object:" + spelling)
     if scoring is not None and weights is not None:
         run.count("class:splinecv:scoring_with_weights")
     if mindists is not None and len(mindists) > 1:
@@ -1090,9 +1094,120 @@ def case_lazy_scan(run, rng, vd, index=0):
             weights[...] = weights[..., ::-1].copy() * 5.0
         run.count("class:lazy_consumed_after:cross_val_score:" + final)
     for dt, lazy, vals, comparable in pending:
-        for schedule in ("synchronous", "threads-4-random"):
+        compute_under(run, dt, lazy, "synchronous", rng, vals if comparable else None)  # binds every clone to its call and split
+        with M.GL:
+            run.evaluated("lazy_score_is_of_call_time")
+    # the lazy scores of SEVERAL cross_val_score calls computed in ONE dask graph: each must be its own call's score
+    if len(pending) >= 2:
+        import dask
+
+        start = S.mark()
+        flat = [x for _, lazy, _, _ in pending for x in lazy]
+        old_interval = sys.getswitchinterval()
+        sys.setswitchinterval(1e-5)
+        try:
+            got = list(dask.compute(*flat, scheduler="threads", num_workers=4))
+        finally:
+            sys.setswitchinterval(old_interval)
+        events = S.since(start)
+        run.count("schedule:one-graph-for-several-calls")
+        run.seen("schedulers", "one graph for several cross_val_score calls (threads-4)")
+        with M.GL:
+            for dt, lazy, vals, comparable in pending:
+                mine, got = got[: len(lazy)], got[len(lazy):]
+                own = [e for e in events if id(e.obj) in dt.binding]
+                M.judge_batch(run, dt, own, mine, "one graph for several calls")
+                run.evaluated("several_calls_in_one_graph")
+                if comparable and not (len(mine) == len(vals) and all(np.float64(a).tobytes() == np.float64(b).tobytes() for a, b in zip(mine, vals))):
+                    run.violation("several_calls_in_one_graph", "computed in one graph with the lazy scores of other calls, the scores of a call "
+                                  "differ from that call's serial scores", {"serial": vals, "in_one_graph": [float(v) for v in mine],
+                                                                           "estimator": dt.est_key}, key="one-graph")
+            claimed = set().union(*[set(dt.binding) for dt, _, _, _ in pending])
+            strangers = [e for e in events if e.kind == "score" and id(e.obj) not in claimed]
+            run.evaluated("several_calls_in_one_graph")
+            if strangers:
+                run.violation("several_calls_in_one_graph", "%d scoring event(s) in the joint graph on objects that belong to none of the calls" % len(strangers),
+                              {}, key="one-graph-strangers")
+            M.flush_local(run)
+    for dt, lazy, vals, comparable in pending:
+        for schedule in ("threads-4-random",):
             compute_under(run, dt, lazy, schedule, rng, vals if comparable else None)
             with M.GL:
                 run.evaluated("lazy_score_is_of_call_time")
     run.sample("lazy_scan", {"dataset": info, "estimator": kind, "parameter": param, "values": values[: n_steps + 1], "cv": cv_label,
                              "changed_before_compute": final, "serial_scores_at_call_time": [p[2] for p in pending]})
+
+
+def case_defaults(run, rng, vd, index=0):
+    """
+    Calls that rely on the documented defaults must behave like the same call with the defaults spelled out:
+    SplineCV() == SplineCV(mindists=None, dampings=(1e-10, 1e-5, 1e-1), force_coords=None, engine="auto", cv=None, client=None,
+    delayed=False, scoring=None); cross_val_score(est, c, d) == cv=KFold(n_splits=5, shuffle=True, random_state=0), no weights,
+    serial, R2; score(c, d) == unweighted R2; train_test_split(c, d) == no weights, no blocks.
+    """
+    from sklearn.model_selection import KFold
+
+    ds, coords, data, weights, info = make_dataset(rng, run, ncomp=1, weighted=False, nmax=60 if run.tier == "quick" else 80)
+    S.register(ds)
+    with warnings.catch_warnings():
+        warnings.simplefilter("ignore")
+        # --- SplineCV()
+        bare = vd.SplineCV()
+        documented = {"mindists": None, "dampings": (1e-10, 1e-5, 1e-1), "force_coords": None, "engine": "auto", "cv": None, "client": None,
+                      "delayed": False, "scoring": None}
+        spelled = vd.SplineCV(**documented)
+        with M.GL:
+            run.evaluated("defaults:SplineCV_constructor")
+            have = {k: getattr(bare, k, "<missing>") for k in documented}
+            want = dict(documented, mindists=[0])  # documented: mindists=None gives the future behaviour, a single mindist of 0
+            wrong = [k for k in documented if not (have[k] is want[k] or (k in ("dampings", "mindists") and have[k] is not None
+                                                                         and list(have[k]) == list(want[k])) or (k not in ("dampings", "mindists") and have[k] == want[k]))]
+            if wrong:
+                run.violation("defaults:SplineCV_constructor", "SplineCV() is configured with %s, the documented defaults are %s"
+                              % ({k: have[k] for k in wrong}, {k: want[k] for k in wrong}), {"get_params": repr(bare.get_params())[:600]}, key="defaults-splinecv-init")
+        bare.fit(coords, data)
+        spelled.fit(coords, data, weights=None)
+        probe = (ds.coordinates[0][::3] * 1.0, ds.coordinates[1][::3] * 1.0)
+        with M.GL:
+            run.evaluated("defaults:SplineCV_fit")
+            same = (np.asarray(bare.scores_, dtype="float64").tobytes() == np.asarray(spelled.scores_, dtype="float64").tobytes()
+                    and (bare.mindist_, bare.damping_) == (spelled.mindist_, spelled.damping_)
+                    and np.array_equal(bare.predict(probe), spelled.predict(probe)))
+            if not same:
+                run.violation("defaults:SplineCV_fit", "SplineCV().fit(c, d) differs from the fit with every documented default spelled out: scores_ %r vs %r, "
+                              "selected %r vs %r" % (bare.scores_, spelled.scores_, (bare.mindist_, bare.damping_), (spelled.mindist_, spelled.damping_)),
+                              {"coordinates": list(ds.coordinates), "data": list(ds.data)}, key="defaults-splinecv-fit")
+        # --- cross_val_score(est, c, d)
+        est, _ = make_estimator(rng, run, vd, 1)
+        short = vd.cross_val_score(est, coords, data)
+        full = vd.cross_val_score(est, coords, data, weights=None, cv=KFold(n_splits=5, shuffle=True, random_state=0), client=None,
+                                  delayed=False, scoring=None)
+        with M.GL:
+            run.evaluated("defaults:cross_val_score")
+            if not (isinstance(short, np.ndarray) and np.shape(short) == np.shape(full) and np.asarray(short).tobytes() == np.asarray(full).tobytes()):
+                run.violation("defaults:cross_val_score", "cross_val_score(est, c, d) = %r; with the documented defaults spelled out (KFold(n_splits=5, "
+                              "shuffle=True, random_state=0), no weights, serial, R2) it is %r" % (short, full),
+                              {"coordinates": list(ds.coordinates), "data": list(ds.data), "estimator": repr(est)}, key="defaults-cvs")
+        lazy = vd.cross_val_score(est, coords, data, delayed=True)  # everything else defaulted
+        lt = last_ticket(lazy)
+        st = last_ticket(short)
+        if lt is not None and st is not None and st.splits is not None:
+            lt.splits = st.splits
+            compute_under(run, lt, lazy, "threads-4", rng, np.asarray(short, dtype="float64"))
+        # --- score(c, d) and train_test_split(c, d)
+        train, test = vd.train_test_split(coords, data)
+        again = vd.train_test_split(coords, data, None, spacing=None, shape=None)
+        est2, _ = make_estimator(rng, run, vd, 1)
+        est2.fit(*train[0:1], train[1][0])
+        value = est2.score(test[0], test[1][0])
+        full_value = est2.score(test[0], test[1][0], weights=None)
+        with M.GL:
+            run.evaluated("defaults:score")
+            if not (np.float64(value).tobytes() == np.float64(full_value).tobytes()):
+                run.violation("defaults:score", "score(c, d) = %r but score(c, d, weights=None) = %r" % (value, full_value), {}, key="defaults-score")
+            run.evaluated("defaults:train_test_split")
+            if len(again) != 2 or any(w is not None for part in (train, test) for w in part[2]):
+                run.violation("defaults:train_test_split", "train_test_split(c, d) returned weights although none were given", {}, key="defaults-tts")
+        with M.GL:
+            M.flush_local(run)
+    run.sample("defaults", {"dataset": info, "SplineCV()": repr(bare.get_params())[:300], "cross_val_score(est, c, d)": short})
